@@ -181,6 +181,7 @@ impl C12 {
         for k in 0..2 {
             docs.push(pool.generated(&Family::JbigCycle, k));
         }
+        docs.push(pool.generated(&Family::LongParents, 0));
         // documents with an update history of their own (several sections, freed and reused numbers,
         // cross-reference streams that share an object number, stale object-stream members)
         for k in 0..(if tier == Tier::Quick { 8 } else { 48 }) {
@@ -340,6 +341,14 @@ impl C12 {
         if same_class && (case.tolerant || case.switch_options.iter().any(|&b| b)) && self.alone.doc_has_cycle(&case.doc) {
             // one root cause, many shapes (which call, which calls before, with or without eviction)
             return "tolerant mode, document with a typed reference cycle: where the cycle is cut depends on the calls made before (the cut object is cached)".to_string();
+        }
+        // known finding K4: more than 64 eager references in a chain. The bound that keeps the stack
+        // finite (repair F39) counts the loads that are nested *now*; with ancestors already in the
+        // cache fewer nest, so a cached document loads nodes that an uncached one refuses.
+        // (in tolerant mode the refusal is swallowed by the optional /Parent field and shows as a
+        // parent chain cut at another place)
+        if case.doc.family == "long_parents" && (alone.text.contains("references nested too deeply") || got.text.contains("references nested too deeply") || case.tolerant || case.switch_options.iter().any(|&b| b)) {
+            return "document with more than 64 eager references in a chain: the nesting bound depends on what the cache already holds".to_string();
         }
         let kind = if alone.ok && got.ok { "different value" } else if alone.ok != got.ok { "Ok/Err class differs" } else { "different kind of error" };
         let mut flags = vec![];
